@@ -923,6 +923,13 @@ func (t *AwaitTxConfirmationAction) Execute(services *SwapServices, swap *SwapDa
 type ValidateTxAndPayClaimInvoiceAction struct{}
 
 func (p *ValidateTxAndPayClaimInvoiceAction) Execute(services *SwapServices, swap *SwapData) EventType {
+	// The claim payment already succeeded (its preimage is stored, e.g. from
+	// before a restart): never pay again and never fail over to the cooperative
+	// close, which would reveal the swap key to a maker that holds the payment.
+	if swap.ClaimPreimage != "" {
+		return Event_ActionSucceeded
+	}
+
 	lc := services.lightning
 	onchain, _, validator, err := services.getOnChainServices(swap.GetChain())
 	if err != nil {
